@@ -9,7 +9,7 @@ Recorded per event (`ev['tk']`, all token indices 1-based and inclusive, 0 = non
   ok       facts are complete (pre / post tokenize, pre parses, container resolved)
   pre,post indices into the batch-wide `streams` table, one record per distinct source text:
            {k: token ids into `ktab` ({t: type name, s: ascii text}), sl / el: start / end line of each token,
-            fol: token is the first on its physical line, ln: physical lines as ids into `ltab` ({b: blank?})};
+            fol: token is the first on its physical line, ln: physical lines as ids into `ltab` ({b: blank or a lone `\\`?})};
            DEDENT tokens are dropped (zero-width, a function of the INDENT / line structure)
   c        token span of the container node (the node whose field is edited): {lo, hi (AST extent), hx (statement-like
            containers: through all directly following COMMENT / NL / NEWLINE tokens - the trailing trivia of a block's
@@ -25,6 +25,8 @@ Recorded per event (`ev['tk']`, all token indices 1-based and inclusive, 0 = non
            parse, post stream from the post parse (uoOk: the post parse has a node of the same kind at the same path)
   newc     COMMENT token ids of the code that was put (newk: ids of its other tokens), exact = the driver passed that code as source text
   stmt     the edited field holds statement-like elements (stmt / ExceptHandler / match_case)
+  docstr   the docstr option value as text; ds1 / ds2: string tokens of expression statements in / not in a docstring
+           position (pre stream)
   elifPre / elifPost   the If's orelse is a single `elif` (pre / post parse);  soleGen: call whose only argument is an
            unparenthesized generator expression;  tv: syntactic decomposition of the `trivia` option value
 """
@@ -74,7 +76,8 @@ class TokTables:
     def line(self, s: str) -> int:
         i = self._l.get(s)
         if i is None:
-            self.ltab.append({'b': not s.strip()})
+            # b: empty, or a lone line continuation (empty space as well); c: a lone line continuation
+            self.ltab.append({'b': s.strip() in ('', '\\'), 'c': s.strip() == '\\'})
             i = self._l[s] = len(self.ltab)
         return i
 
@@ -311,6 +314,21 @@ def elem_spans(st: Stream, node, field):
     elif field in ('_args', '_bases'):
         vals = sorted((node.args if isinstance(node, ast.Call) else node.bases) + node.keywords,
                       key=lambda x: (x.lineno, x.col_offset))
+    elif field == '_all' and isinstance(node, ast.arguments):
+        # parameters in source order, each with its star and its default: posonlyargs, args, *vararg, kwonlyargs, **kwarg
+        pos = node.posonlyargs + node.args
+        dflt = [None] * (len(pos) - len(node.defaults)) + list(node.defaults)
+        pairs = list(zip(pos, dflt)) + ([(node.vararg, None)] if node.vararg else []) + \
+            list(zip(node.kwonlyargs, node.kw_defaults)) + ([(node.kwarg, None)] if node.kwarg else [])
+        out = []
+        for a, d in pairs:
+            sa = node_span(st, a)
+            sd = st.ext_pars(*node_span(st, d)) if d is not None and node_span(st, d) else None
+            if sa is None:
+                return None
+            lo = sa[0] - 1 if sa[0] > 1 and st.toks[sa[0] - 2].string in ('*', '**') else sa[0]
+            out.append({'lo': lo, 'hi': sd[1] if sd else sa[1], 'blk': False})
+        return out
     elif field == '_all' and isinstance(node, ast.Compare):
         vals = [node.left] + node.comparators
     elif field == '_all' and isinstance(node, ast.Dict):
@@ -345,8 +363,30 @@ def elem_spans(st: Stream, node, field):
             return None
         if isinstance(v, ast.expr) and not sole:
             sp = st.ext_pars(*sp)  # the element's own grouping parentheses
+        if isinstance(node, ast.comprehension) and field == 'ifs':
+            j = st.back_to(sp[0] - 1, ('if',))  # `if cond`: the keyword belongs to the element
+            if j and all(t.string == '(' for t in st.toks[j:sp[0] - 1]):
+                sp = (j, sp[1])
+        if isinstance(node, ast.arguments) and field in ('vararg', 'kwarg') and sp[0] > 1 and \
+                st.toks[sp[0] - 2].string in ('*', '**'):
+            sp = (sp[0] - 1, sp[1])  # `*args` / `**kw`: the star belongs to the element
         out.append({'lo': sp[0], 'hi': sp[1], 'blk': isinstance(v, BLOCK)})
     return out
+
+
+def expr_strings(st: Stream, tree):
+    """Token indices of the string tokens of expression statements: (in a docstring position - first statement of a
+    module / def / class body -, elsewhere).  What the docstr option may re-indent is written in terms of these."""
+    first = {id(n.body[0]) for n in ast.walk(tree)
+             if isinstance(n, (ast.Module, ast.FunctionDef, ast.AsyncFunctionDef, ast.ClassDef)) and n.body}
+    ds1, ds2 = [], []
+    for n in ast.walk(tree):
+        if isinstance(n, ast.Expr) and isinstance(n.value, ast.Constant) and isinstance(n.value.value, str):
+            sp = st.span(n.value)
+            if sp is not None:
+                (ds1 if id(n) in first else ds2).extend(
+                    i for i in range(sp[0], sp[1] + 1) if st.toks[i - 1].type == tokenize.STRING)
+    return sorted(ds1), sorted(ds2)
 
 
 def elif_form(st: Stream, node) -> bool:
@@ -439,6 +479,7 @@ def record(tt: TokTables, plan, pre_src: str, post_src: str, new_elems=None) -> 
                       {'_body': 'body', '_args': 'args', '_bases': 'bases'}.get(
                           field, ('left' if isinstance(node, ast.Compare) else 'keys') if field == '_all' else field))
     newc, newk = code_tokens(tt, plan.srcs, new_elems)
+    ds = expr_strings(pre, tree)
     uo, uo_ok = [0] * len(post.toks), False
     try:
         ptree = ast.parse(post_src)
@@ -455,6 +496,7 @@ def record(tt: TokTables, plan, pre_src: str, post_src: str, new_elems=None) -> 
               'hx': pre.ext_trivia(span[1]) if isinstance(host, STMTLIKE) else pre.ext_comment(span[1])},
         'elifPre': elif_form(pre, host), 'elifPost': uo_ok and elif_form(post, pcf[1]),
         'tv': trivia_json(plan.opts.get('trivia', True)),
+        'docstr': str(plan.opts.get('docstr', True)), 'ds1': ds[0], 'ds2': ds[1],
         'soleGen': sole_genexp(pre, host),
         'kids': kids, 'elems': elems if elems is not None else [], 'elemsOk': elems is not None, 'r': rank,
         'hostKind': type(host).__name__,
@@ -465,7 +507,7 @@ def record(tt: TokTables, plan, pre_src: str, post_src: str, new_elems=None) -> 
 
 EMPTY = {'ok': False, 'pre': 0, 'post': 0, 'own': [], 'uown': [], 'uoOk': False,
          'c': {'lo': 0, 'hi': 0, 'hx': 0}, 'elifPre': False, 'elifPost': False, 'soleGen': False,
-         'tv': {'n': -1, 'a': []}, 'kids': [], 'elems': [], 'elemsOk': False, 'r': 0, 'hostKind': '', 'newc': [], 'newk': [],
+         'tv': {'n': -1, 'a': []}, 'docstr': 'True', 'ds1': [], 'ds2': [], 'kids': [], 'elems': [], 'elemsOk': False, 'r': 0, 'hostKind': '', 'newc': [], 'newk': [],
          'exact': False, 'stmt': False}
 
 
@@ -473,6 +515,9 @@ TRIVIA_POOL = [True, False, 'all', 'block', 'none', 'all-', 'block+1', '+2', '-1
                ('line',), (False, False), ('all', 'all'), ('block', 'block'), ('none', 'line+1'), ('all-1', 'all+'),
                ('none', 'block'), ('all', False), (True, 'all-1'), ('block', 'none'), (True, False), ('all', 'none'),
                ('block-1', False), ('+1', 'none')]
+
+
+SPACE_SUFFIXES = ('', '', '+1', '+2', '+3', '-1', '-2', '-3', '+', '-')
 
 
 def _target_lines(root, plan):
@@ -504,6 +549,8 @@ def make_hooks(tt: TokTables):
         ev['tk'] = tk
 
     def pre(root, plan, o, rng):
+        if not plan.corrupt and 'docstr' not in plan.opts and rng.random() < 0.12:
+            plan.opts = dict(plan.opts, docstr=rng.choice((False, 'strict')))  # (the driver's pool has them in 2 of 20)
         # widen the driver's option pool: every documented form of the `trivia` option, line numbers included (chosen
         # around the lines of the targeted element so that they matter)
         if not plan.corrupt and rng.random() < 0.45:
@@ -511,6 +558,13 @@ def make_hooks(tt: TokTables):
             lead, trail = rng.randint(a - 4, a + 1), rng.randint(b - 2, b + 4)
             pool = TRIVIA_POOL + [lead, (lead, trail), ('block', trail), (lead, 'line'), (lead, 'all'), (lead, 'none'),
                                   (lead, trail), ('all', trail)]
-            plan.opts = dict(plan.opts, trivia=rng.choice(pool))
+            if rng.random() < 0.5:
+                plan.opts = dict(plan.opts, trivia=rng.choice(pool))
+            else:  # composed: word x space count ('+N' / '-N', N in 1..3, '+' / '-' = all) for both parts
+                def part(words):
+                    w = rng.choice(words)
+                    return w + rng.choice(SPACE_SUFFIXES) if isinstance(w, str) else w
+                plan.opts = dict(plan.opts, trivia=(part(('none', 'block', 'all', '', False, True)),
+                                                    part(('none', 'line', 'block', 'all', '', False, True))))
 
     return {'pre': pre, 'post': post}
